@@ -24,10 +24,13 @@ TEXT_LINES = [
     '12:30:45 time', '2020-01-15 10:11:12', '5 feb 2021', '$HOME/x', 'a\\', 'line with # hash', '--flag=value',
     '12 Sept 2019', 'Sept 3, 2021 14:05:09', 'July 4, 2020 was hot', 'on 1 sept 2021', '30 June 2022 09:08:07', 'Mar 5 2020',
     '\u00c5ngstr\u00f6m 5 \u03a9', 'na\u00efve r\u00e9sum\u00e9',
+    # separators that str.splitlines() knows and file iteration does not (paginated reports, old line printers)
+    'page 1\x0cpage 2', 'vt\x0bhere', 'nel\x85x', 'ls\u2028sep ps\u2029end', 'fs\x1cgs\x1drs\x1e.',
 ]
 
 FILE_NAMES = ['out.txt', 'data.bin', 'a b2', 'a-b', 'a_b', 'stdout', 'stderr', 'exit_code', 'report-v1.txt',
-              'report_v1.txt', 'x\u00b2.txt', 'caf\u00e9.txt', 'UPPER.TXT', 'no_ext', 'd.e.f.txt', '1start.txt', '2', '3']
+              'report_v1.txt', 'x\u00b2.txt', 'caf\u00e9.txt', 'UPPER.TXT', 'no_ext', 'd.e.f.txt', '1start.txt', '2', '3',
+              'out[1].txt', 'data[v2].txt', 'set{a,b}.txt']
 
 
 def sh_quote(s):
@@ -102,6 +105,9 @@ def write_command(d, beh):
             lines.append('cp %s "$TMPDIR"/%s' % (sh_quote(os.path.join(pay, 'f%d' % i)), sh_quote(nm)))
             continue
         lines.append('cp %s %s' % (sh_quote(os.path.join(pay, 'f%d' % i)), sh_quote(target)))
+        if nm in beh.get('stamp', ()):
+            # a command that gives its output a fixed modification time (reproducible builds, cp -p, archive extraction)
+            lines.append('touch -d @1500000000 %s' % sh_quote(target))
         if nm in beh.get('both', ()):
             # the same base name is also written in the main output directory (with other content)
             with open(os.path.join(pay, 'g%d' % i), 'wb') as f:
@@ -239,6 +245,14 @@ def mutate_behaviour(rng, beh, kind):
                     return new
             except UnicodeDecodeError:
                 pass
+        same_size = [k_ for k_, b_ in enumerate(data) if 48 <= b_ <= 57 or 97 <= b_ <= 122]
+        if same_size and (rng.random() < 0.4 or nm in beh.get('stamp', ())):
+            # one character altered, the size kept (VALUE=1 -> VALUE=2)
+            k_ = rng.choice(same_size)
+            b_ = data[k_]
+            nb_ = (b_ - 48 + 1) % 10 + 48 if b_ <= 57 else (b_ - 97 + 1) % 26 + 97
+            new['files'][nm] = (text, data[:k_] + bytes([nb_]) + data[k_ + 1:])
+            return new
         new['files'][nm] = (text, (data + (b'CHANGED\n' if text else b'\x01')) if rng.random() < 0.6 or not data
                             else (bytes([data[0] ^ 1]) + data[1:] if not text else b'X' + data))
     elif kind.startswith('missing:'):
